@@ -4,6 +4,7 @@ import TssVerif.Core.Sign
 import TssVerif.Core.EngineTables
 import TssVerif.Core.Ckd
 import TssVerif.Core.Primes
+import TssVerif.Core.Blame
 /-! Line-protocol ops for signing arithmetic. -/
 namespace TssVerif.OpsSign
 open TssVerif Wire OpsCrypto Sign
@@ -74,6 +75,34 @@ def run (op : String) (args : List String) : Option String :=
       | .ok none => "exhausted"
       | .err e => "err " ++ e
       | .panic e => "panic " ++ e)
+    | _, _ => none
+  | "kg_round3", [t, ownId, ownShare, ssid, peers] =>
+    -- peers: `idx/commitment/d1,d2,…/ax/ay/t/share` separated by `;`
+    let pPeer (s : String) : Option Blame.KgPeer :=
+      match s.splitOn "/" with
+      | [idx, c, d, ax, ay, tt, sh] =>
+        match pDec idx, pNat c, pList pNat d, pNat ax, pNat ay, pNat tt, pNat sh with
+        | some idx, some c, some d, some ax, some ay, some tt, some sh => some ⟨idx, c, d, (ax, ay), tt, sh⟩
+        | _, _, _, _, _, _, _ => none
+      | _ => none
+    match pDec t, pNat ownId, pNat ownShare, pBytes ssid, (peers.splitOn ";").mapM pPeer with
+    | some t, some ownId, some ownShare, some ssid, some peers =>
+      some ((Blame.kgRound3 Ed25519.curve Sha512.sha512_256 Zk.cur ⟨true⟩ true 8 Ed25519.eightInv t ownId ownShare ssid peers).render fun res =>
+        "culprits=" ++ rList toString res.culprits ++ " xi=" ++ rNat res.xi)
+    | _, _, _, _, _ => none
+  | "sg_round3", [ssid, peers] =>
+    let pPeer (s : String) : Option Blame.SgPeer :=
+      match s.splitOn "/" with
+      | [idx, c, d, ax, ay, tt] =>
+        match pDec idx, pNat c, pList pNat d, pNat ax, pNat ay, pNat tt with
+        | some idx, some c, some d, some ax, some ay, some tt => some ⟨idx, c, d, (ax, ay), tt⟩
+        | _, _, _, _, _, _ => none
+      | _ => none
+    match pBytes ssid, (peers.splitOn ";").mapM pPeer with
+    | some ssid, some peers =>
+      some ((Blame.sgRound3 Ed25519.curve Sha512.sha512_256 Zk.cur true true 8 Ed25519.eightInv ssid peers).render fun
+        | some (idx, blamed) => "error culprits=" ++ (if blamed then toString idx else "_")
+        | none => "pass")
     | _, _ => none
   | "ed25519_verify", [pub, msg, sig] =>
     match pBytes pub, pBytes msg, pBytes sig with
